@@ -214,7 +214,7 @@ class Stack(Factory, Container):
             return self.zero()
         out = self.zero()
         out.entries = factor * self.entries
-        out.bins = [(c, v * factor) for (c, v) in self.bins]
+        out.bins = tuple((c, v * factor) for (c, v) in self.bins)
         out.nanflow = self.nanflow * factor
         return out.specialize()
 
